@@ -259,6 +259,11 @@ def oracle(w, mev, timeouts):
             return f"stack-status listeners remain registered ({st}) with only {live_status} status operations in progress"
         if int(parts["cbs"]) != live_scan:
             return f"{parts['cbs']} scan callbacks registered with {live_scan} scans in progress ({st})"
+        # no missed event: once its command has succeeded and a matching event has arrived after its listener was
+        # registered, the operation is over at the next settled state
+        for op, o in ops.items():
+            if o["kind"] != "scan" and not o.get("done") and o["event_after_reg"] and o["resp"] == "ok":
+                return f"{o['kind']} operation {op} is still waiting after {m} although its stack-status event arrived after its listener was registered: it missed its event"
     return None
 
 
